@@ -184,6 +184,68 @@ pub fn special_profile() -> Profile {
     p
 }
 
+pub fn iterate_profile() -> Profile {
+    let mut p = Profile::base("iterate");
+    p.max_local_funcs = 5;
+    p.min_local_funcs = 0;
+    p.ops = w(&[("build_func", 3), ("add_import_func", 2), ("add_global", 1)]);
+    p.mean_ops = 1;
+    p
+}
+
+/// C25: the recorded trajectories of the real iterator must equal the model's visit list.
+pub fn judge_c25(sc: &Scenario, res: &RunResult) -> Judged {
+    let mut owned = vec![];
+    let plan = match &sc.walk {
+        Some(p) => p,
+        None => {
+            return Judged {
+                owned,
+                others: vec![],
+                harness_error: Some("C25 scenario without walk plan".into()),
+            }
+        }
+    };
+    let expected = crate::exec::expected_walk(&res.model, plan);
+    for w in &res.walks {
+        match &w.result {
+            Err(p) => owned.push(Mismatch::new(
+                "iterator_panic",
+                &format!("{}:{}", if expected.is_empty() { "nothing_to_visit" } else { w.what.as_str() }, p.sig()),
+                format!("{:?} (skip {:?})", p, plan.skip),
+            )),
+            Ok(v) => {
+                let exp: &[crate::exec::Visit] = if w.what == "empty" { &[] } else { &expected };
+                if v.as_slice() != exp {
+                    let k = v.iter().zip(exp.iter()).position(|(a, b)| a != b).unwrap_or(v.len().min(exp.len()));
+                    let class = match (v.get(k), exp.get(k)) {
+                        (None, Some(_)) => "stops_early",
+                        (Some(_), None) => "visits_too_much",
+                        (Some(a), Some(b)) if a.0 != b.0 || a.1 != b.1 => "location",
+                        (Some(a), Some(b)) if a.2 != b.2 => "end_flag",
+                        _ => "instruction",
+                    };
+                    owned.push(Mismatch::new(
+                        "iterator_trajectory",
+                        &format!("{}:{class}", w.what),
+                        format!("skip {:?}: position {k}: visited {:?}, expected {:?} ({} vs {} positions)", plan.skip, v.get(k), exp.get(k), v.len(), exp.len()),
+                    ));
+                }
+            }
+        }
+    }
+    for m in judge_panics(sc, res) {
+        if m.kind == "unexpected_panic" {
+            // not this property's business (e.g. builder panics); keep as observation
+        }
+    }
+    Judged {
+        owned,
+        others: vec![],
+        harness_error: res.parse_err.clone().map(|e| format!("library refused a validated base module: {e}")),
+    }
+}
+
 pub fn custom_profile() -> Profile {
     let mut p = Profile::base("custom");
     p.customs = true;
@@ -338,6 +400,7 @@ pub fn check_def(id: &str) -> Option<CheckDef> {
                 vec![],
             )
         },
+        "C25" => d("C25", vec![iterate_profile()]),
         "C28" => d("C28", vec![custom_profile()]),
         "C29" => d("C29", vec![names_profile()]),
         "C30" => d("C30", vec![additions_profile()]),
@@ -547,6 +610,10 @@ pub fn judge(id: &str, sc: &Scenario, hash_seeds: usize) -> (Judged, RunResult, 
         "C05" => {
             let r = run(sc);
             (judge_c05(sc, &r), r, sc.clone())
+        }
+        "C25" => {
+            let r = run(sc);
+            (judge_c25(sc, &r), r, sc.clone())
         }
         "C13" => {
             // the dedup map is hash ordered: judge under several seeds, report the first failing
